@@ -3,7 +3,7 @@ prop("C13", pkg="c13",
           "one, seqids up to 2^31-1) interleaved with values whose fixed-width big-endian bytes are all non-zero (i16/i32/i64/double patterns such as 0x12345678), strings of "
           "length 256..74565 (2- and 3-byte lengths) and small random trees, the whole byte stream compared with the concatenated thriftspec bytes (catches state leaking "
           "between calls through the Writer's scratch buffer); 'writer' (18%) - a random content tree (struct body with ascending positive ids from the seven gap classes, every thrift type, "
-          "containers of 0/1/2/3/14/15/16/127/128 elements, integers at every zig-zag/width boundary, special doubles, strings up to 300 bytes, optional message header "
+          "containers of 0/1/2/3/14/15/16/127/128 elements, integers at every zig-zag/width boundary, special doubles, strings up to 4660 bytes and a small share of 65537 / 70000 / 131073 bytes (values, elements, map keys; in every case kind), optional message header "
           "with types Call..Oneway, seqids at varint boundaries) rendered through the package's Writer methods with the struct encoder's calling convention and compared "
           "byte-for-byte with harness/thriftspec; 'marshal' (27%) - Marshal of a tgen struct value vs thriftspec's encoding of the content read off the value by "
           "reflection (values with multi-entry maps: thriftspec-decoded, compared as content and re-encoded to the same bytes); 'readers' (18%) - thriftspec bytes with "
